@@ -20,6 +20,7 @@ type File struct {
 	src   string
 	items []*item
 	lines *lineIndex
+	edits []edit // edits turning the source into JavaScript
 }
 
 // Source returns the text given to Parse.
@@ -43,9 +44,6 @@ type item struct {
 	imp      *Import
 	decl     *Decl
 	class    *Class
-	edits    []edit // type-stripping edits inside the statement (itOther)
-	// for itOther: the range of leading `export [default]` tokens, if any
-	exportEnd int
 }
 
 // edit replaces src[pos:end] by text.
@@ -86,10 +84,6 @@ type Decl struct {
 	Declare    bool // `declare ...`
 	Line       int
 
-	nameEnd          int // end offset of the name
-	kwPos            int // offset of the `const`/`type`/`interface` keyword
-	annStart, annEnd int // const: range of the `: Type` annotation (annStart==annEnd if none)
-	edits            []edit
 }
 
 // TypeParam is a generic parameter `T extends C = D`.
@@ -140,15 +134,8 @@ type Class struct {
 	RawBody    string // text of the body including braces
 	Line       int
 
-	pos, end         int
-	headerEnd        int // offset of `{`
-	extendsTypeArgs  [2]int
-	implementsRange  [2]int
-	members          []*classMember
-	typeParamsRange  [2]int
-	classKwPos       int
-	nameEnd          int
-	extendsExprRange [2]int
+
+	pos, end int
 }
 
 // Method is a class method (or accessor, or the constructor).
@@ -169,7 +156,6 @@ type Method struct {
 	// Annotations found inside the body: `const x: T = ...`, `expr as T`, `catch (e: T)`.
 	BodyAnnotations []*Annotation
 
-	bodyPos, bodyEnd int
 }
 
 // Annotation is a type annotation found in JavaScript code.
@@ -190,18 +176,6 @@ type ClassProp struct {
 	Line      int
 }
 
-// classMember carries the positions needed by Strip.
-type classMember struct {
-	pos, end  int // end includes a trailing `;`
-	remove    bool
-	method    *Method
-	prop      *ClassProp
-	edits     []edit
-	isCtor    bool
-	hasSuper  bool
-	superStmt int // offset just after the super(...) call statement in the ctor body, -1 if none
-}
-
 // Param is a function/method parameter.
 type Param struct {
 	Name      string // identifier or the text of a destructuring pattern
@@ -210,8 +184,6 @@ type Param struct {
 	Rest      bool
 	Default   string   // default value expression text
 	Modifiers []string // protected, private, public, readonly, override => parameter property
-
-	edits []edit
 }
 
 // ---- type AST ----
